@@ -100,7 +100,10 @@ def engineCase (inp impl : String) : CaseOut :=
           else
             let (st', obs2) := esEvent st s!"DL({engIdx addr (some k)},pill,-)"
             (st', out ++ [String.intercalate "," (["ctxdone"] ++ obs2)], tags ++ ["poison.unknown"])
-        | none => (st, out ++ ["bad-op"], tags)
+        | none =>
+          -- Poison(nil): no process can be found for a nil PID: dead letter with a nil target, context done at once
+          let (st', obs2) := esEvent st "DL(-,pill,-)"
+          (st', out ++ [String.intercalate "," (["ctxdone"] ++ obs2)], tags ++ ["poison.nil"])
       else (st, out ++ ["bad-op"], tags)
     let (_, out, tags) := ops.foldl stepOp ({}, [], [])
     let model := String.intercalate ";" out
@@ -114,7 +117,8 @@ def engineCase (inp impl : String) : CaseOut :=
         let prop :=
           if (got.splitOn "OVERFLOW").length > 1 then "C09 unbounded event feedback (a finite number of sends must produce a finite number of events)"
           else if (got.splitOn "PANIC").length > 1 then "C09 sending panicked"
-          else if op.startsWith "snd" || op.startsWith "poi" then "C09 undeliverable message not surfaced exactly once to every reachable subscriber"
+          else if op.startsWith "poi" then "C07+C09 Stop/Poison of an unknown (or foreign) PID: one dead letter and a context that is done at once"
+          else if op.startsWith "snd" then "C09 undeliverable message not surfaced exactly once to every reachable subscriber"
           else "C12 event not delivered exactly once to exactly the current subscribers"
         s!"FAIL:{prop}: op#{i} {op}: implementation [{got}] expected [{out.getD i "?"}]"
     { model := model, spec := spec, tags := tags.eraseDups, nontrivial := tags.contains "event" || tags.contains "send.deadletter" }
